@@ -1,5 +1,5 @@
 """C04 — reset() rewinds any pattern to its initial state."""
-from .. import pat_impl, pat_props, pat_suite
+from .. import common, pat_impl, pat_props, pat_suite
 from ..pat_impl import REG
 
 PROPERTY = "C04"
@@ -228,8 +228,64 @@ def boundary_all_cases(ctx):
                            "first_failing_clause": "all() leaves the pattern rewound"})
 
 
+def configured_cases(ctx):
+    """'identically configured': configuration made through a pattern's chainable methods after construction (the documented
+    PRandomImpulseSequence(p, n).every(k, action)) is part of what a reset() keeps — the reset object plays what a new instance
+    built, configured and seeded the same way plays, also when it sits inside an expression and for k = 0."""
+    common.ensure_repo_on_path()
+    import isobar as iso
+    r = ctx.rng
+    for i in range(ctx.scale(80, 2500)):
+        p, L, ev = r.randint(1, 7) / 8.0, r.randint(2, 8), r.randint(1, 6)
+        act = r.choice(["explore", "explore", "generate", "reset"])
+        seed = r.randrange(1 << 30)
+        n = r.randint(8, 40)
+        where = r.choice(["direct", "direct", "operand", "nested"])
+
+        def make():
+            core = iso.PRandomImpulseSequence(p, L).every(ev, act).seed(seed)
+            if where == "operand":
+                return core + 0
+            if where == "nested":
+                return iso.PSubsequence(iso.PAdd(core, 0), 0, 10 ** 6)
+            return core
+
+        def pull(o, m):
+            out = []
+            for _ in range(m):
+                try:
+                    out.append(next(o))
+                except StopIteration:
+                    out.append("stop")
+                    break
+            return out
+        k = r.choice([0, 0, 1, 2, ev, ev + 1, r.randint(0, n)])
+        try:
+            fresh = pull(make(), n)
+            o = make()
+            pull(o, k)
+            o.reset()
+            if r.random() < 0.3:
+                o.reset()
+            again = pull(o, n)
+        except Exception as ex:
+            fresh, again = None, "raised %s" % type(ex).__name__
+        ctx.case(("configured", p, L, ev, act, seed, where, k), nontrivial=True, validated=False,
+                 sample={"configured": {"class": "PRandomImpulseSequence", "every": [ev, act], "where": where, "consumed_before_reset": k}} if i < 2 else None)
+        ctx.count("configured:every:%s:%s" % (act, where))
+        if fresh != again:
+            j = next((j for j, (x, y) in enumerate(zip(fresh or [], again if isinstance(again, list) else [])) if x != y), 0)
+            ctx.violation("C04:reset-loses-configuration:PRandomImpulseSequence.every",
+                          "PRandomImpulseSequence(%s, %d).every(%d, %r).seed(%d) (%s): after %d values and reset() it plays %s, a new instance %s "
+                          "(first difference at step %d)" % (p, L, ev, act, seed, where, k, again[:12] if isinstance(again, list) else again,
+                                                              (fresh or [])[:12], j),
+                          {"suite": "c04-configured", "p": p, "length": L, "every": ev, "action": act, "seed": seed, "where": where,
+                           "consumed_before_reset": k, "first_failing_clause": "reset() = a newly constructed, identically seeded and configured instance"})
+
+
 def run(ctx):
     structure_change_cases(ctx)
+    configured_cases(ctx)
     boundary_all_cases(ctx)
     classes = pat_props.focus_classes()
     n_cases = ctx.scale(2500, 250000)
